@@ -382,6 +382,23 @@ impl Record {
     }
 }
 
+#[cfg(feature = "verif")]
+impl Record {
+    /// (retired bit, number of readers holding the extent)
+    pub fn verif_extent_state(&self) -> (bool, u32) {
+        let state = self.extent_state.load(Ordering::Acquire);
+        (state & EXTENT_RETIRED != 0, state & EXTENT_READERS)
+    }
+
+    pub fn verif_deferred(&self) -> bool {
+        self.value_source.is_some()
+    }
+
+    pub fn verif_retired_at(&self) -> u64 {
+        self.retired_at.load(Ordering::Acquire)
+    }
+}
+
 impl Drop for Record {
     fn drop(&mut self) {
         let mut successor = self.successor.take();
